@@ -56,6 +56,7 @@ class Actor:
         self.model = []  # [(channel|None, item id)]
         self.items = {}  # id -> library item object (identity matters for remove-by-object)
         self.last_sha = None
+        self.assigned_list = None  # the list object last assigned to .tracks / .platforms
         self.ctor_list = None  # the list object handed to the constructor (if any)
         self.ctor_ids = None
 
@@ -256,6 +257,23 @@ class World2:
                 continue
             want_ids = [i for _c, i in a.model]
             got_ids = [i for _c, i in pairs]
+            if a.cls in ("data3d", "ft", "emg", "events") and got_ids == want_ids:
+                # lookups by label answer from the same content as iteration
+                items = list(a.obj)
+                for idx, iid in enumerate(want_ids[:4]):
+                    if iid is None or want_ids.index(iid) != idx:
+                        continue
+                    k2, got = self.call(lambda lab=f"i{iid}": a.obj[lab])
+                    if k2 == "exc" or got is not items[idx]:
+                        self.v(prop_iso or self.primary(a), "I-obj", "label-lookup-disagrees-with-content",
+                               {"actor": k, "label": f"i{iid}", "result": repr(got)[:80]})
+                        break
+                k2, got = self.call(lambda: "i999999" in a.obj)
+                if k2 == "ok" and got:
+                    self.v(prop_iso or self.primary(a), "I-obj", "label-lookup-disagrees-with-content",
+                           {"actor": k, "label": "i999999 (never added)", "result": "contained"})
+                if self.viol:
+                    continue
             if got_ids != want_ids:
                 self.v(prop_iso or self.primary(a), "I-obj",
                        "other-instance-changed" if prop_iso else "items-differ-from-model",
@@ -488,8 +506,8 @@ class World2:
     def op_add_bad(self, op):
         """Wrong length / wrong kind: refused, block unchanged (C16)."""
         a = self.actor(op["a"])
-        if a is None or a.obj is None or a.cls not in TRACKED + ("fpcal", "fpdata"):
-            return self.skip()
+        if a is None or a.obj is None or a.cls not in TRACKED:
+            return self.skip()  # only C16 (3D, force/torque, EMG) promises that wrong items are refused
         kindname = op["kind"]
         if kindname.startswith("len"):
             if a.cls not in TRACKED:
@@ -519,7 +537,7 @@ class World2:
         kind, val = self.call(self.adder(a), it, None)
         self.note("add_bad", kindname, kind)
         if kind != "exc":
-            self.v("C16" if a.cls in TRACKED else "C15", "I-obj", "invalid-item-accepted", {"what": kindname})
+            self.v("C16", "I-obj", "invalid-item-accepted", {"what": kindname})
 
     def remover(self, a, by, k):
         o = a.obj
@@ -683,6 +701,7 @@ class World2:
                 new_model = [(None, i) for i in ids]
                 payload = filter(lambda t, keep_ids=keep_ids: id(t) in keep_ids, a.obj.tracks)
             self.stats["assign_as_" + how] += 1
+        a.assigned_list = payload if isinstance(payload, list) else None
         old_ids = [i for _c, i in a.model]
         old_objs = list(a.obj.tracks) if a.cls in ("data3d", "ft") else None
         attr = "tracks" if a.cls in ("data3d", "ft") else "platforms"
@@ -740,6 +759,77 @@ class World2:
                 self.v("C15", "I-chan", "inconsistent-after-failed-assignment", {"why": prob[:200]})
                 return
             a.model = list(enc)
+
+    def op_touch_callers_list(self, op):
+        """After a list was assigned to a block, the caller goes on using *its own* list: appends a
+        wrong-length track / drops an element.  The block must not follow."""
+        a = self.actor(op["a"])
+        if a is None or a.obj is None or a.assigned_list is None:
+            return self.skip()
+        lst = a.assigned_list
+        self.expect_unchanged = True
+        if op.get("how") == "pop" and lst:
+            lst.pop()
+        else:
+            if a.cls in ("data3d", "ft"):
+                lst.append(make_item(a.cls, a.n, 900 + self.step, a.n + 3))
+            elif a.cls == "fpdata":
+                lst.append(make_item(a.cls, a.n, 900 + self.step))
+            else:
+                lst.append((77, make_item(a.cls, a.n, 900 + self.step)))
+        a.assigned_list = None
+        self.stats["callers_list_touched"] += 1
+        self.note("touch_list")
+
+    def op_poison_encode(self, op):
+        """A separately created block whose encoding fails half-way (un-encodable label in its
+        second item) must not change what the other instances encode."""
+        if self.cls not in ("emg", "data3d", "ft", "fpcal", "optical", "events"):
+            return self.skip()
+        kind, b = self.call(new_block, self.cls, self.n)
+        if kind == "exc":
+            return self.skip()
+        good, bad = make_item(self.cls, self.n, 800), make_item(self.cls, self.n, 801)
+        field = "camera_name" if self.cls == "optical" else "label"
+        setattr(bad, field, "x" * 300 if op.get("how") != "enc" else "\u4e2d\u6587")
+        actor = Actor(self.cls, self.n)
+        actor.obj = b
+        add = self.adder(actor)
+        self.call(add, good, None)
+        self.call(add, bad, None)
+        kind, _ = self.call(self.encode, b)
+        self.stats["fault_failed_encode"] += 1
+        self.note("poison_encode", kind)
+
+    def op_decode_dup_channels(self, op):
+        """Bytes written by other software in which the channel map names a channel twice: the
+        decoder may refuse them; it must not hand out a block whose channels are not unique."""
+        if self.cls not in CHANNELLED:
+            return self.skip()
+        n = self.n
+        if self.cls == "emg":
+            C = {"t": "emg", "fmt": 1, "nSamples": n, "freq": 100, "start": b"\0" * 4,
+                 "tracks": [{"ch": c, "label": f"i{700 + k}", "mask": "1" * n, "data": b"\0" * 4 * n}
+                            for k, c in enumerate((4, 9, 4))]}
+        elif self.cls == "fpcal":
+            C = {"t": "fpcal", "fmt": 2, "plats": [{"ch": c, "label": f"i{700 + k}", "size": b"\0" * 8, "pos": b"\0" * 48}
+                                                    for k, c in enumerate((4, 9, 4))]}
+        else:
+            C = {"t": "fpdata", "fmt": 1, "nFrames": n, "freq": 100, "start": b"\0" * 4,
+                 "plats": [{"ch": c, "mask": "1" * n, "data": b"\0" * 24 * n} for c in (4, 9, 4)]}
+        data = rc.encode(C)
+        cls_obj = type(new_block(self.cls, n))
+        kind, o = self.call(lambda: cls_obj._build(io.BytesIO(data), FMT[self.cls]))
+        self.stats["fault_duplicate_channel_bytes"] += 1
+        self.note("decode_dup", kind)
+        if kind == "exc":
+            return
+        tmp = Actor(self.cls, n)
+        tmp.obj = o
+        enc, prob = self.observe_encoded(tmp)
+        chans = [c for c, _ in enc] if enc else []
+        if prob is None and len(set(chans)) != len(chans):
+            self.v("C15", "I-chan", "decoded-block-has-duplicate-channels", {"channels": chans})
 
     def op_edit(self, op):
         """Edit an item's samples in place: must not show through another instance."""
